@@ -32,7 +32,7 @@ NS_CHOICES = ["http://ex.org/", "http://ex.org/ns/", "http://other.org/v#", RDF,
 
 @st.composite
 def cases(draw):
-    g = draw(gg.general(inst_props=(RDF_TYPE, RDF_TYPE, RDF_TYPE, "http://ex.org/isA"), iri_like_literals=draw(st.integers(0, 3)) == 0, hash_props=draw(st.booleans())))
+    g = draw(gg.general(inst_props=(RDF_TYPE, RDF_TYPE, RDF_TYPE, "http://ex.org/isA"), iri_like_literals=draw(st.integers(0, 3)) == 0, hash_props=draw(st.booleans()), quirks=draw(gg.quirk_set(one_in=4))))
     cfg = draw(gg.switches())
     cfg["instances_report_mode"] = "mixed"
     target = draw(common.target_spec(g))
